@@ -7,7 +7,13 @@ Extracted with Python's ast:
   server.py  : the literal written by sys.stdout.write(...) in main
   options.py : method_choices (the non-win32 branch)
   firewall.py: the hosts-file marker format, readline limit
-Any unrecognised shape raises and the caller reports a broken correspondence.
+Any unrecognised shape is reported (exit status 2) and the caller reports a broken correspondence.
+
+The file is generated section by section.  When one section's shape is not recognised, that section is taken
+from harness/consts_committed.v — the constants of the last committed state of /repo, kept under version control
+(refreshed with `gen_consts.py --snapshot`, and automatically after a clean generation from /repo itself) — so
+that the model can still be built and the search for a failing input can still run; the exit status stays 2 and
+the message names the section: the tie to the source is broken and is reported as such.
 """
 import ast
 import errno
@@ -15,6 +21,8 @@ import os
 import sys
 
 REPO = os.environ.get("VERIF_REPO", "/repo")
+COMMITTED = os.path.join(os.path.dirname(os.path.abspath(__file__)), "consts_committed.v")
+MARK = "(* section: %s *)"
 
 
 class Shape(Exception):
@@ -56,15 +64,7 @@ def find_func(tree, name):
     raise Shape("function %s not found" % name)
 
 
-def gen():
-    out = []
-    w = out.append
-    w("(* GENERATED by harness/gen_consts.py from %s — do not edit *)" % REPO)
-    w("From Coq Require Import List NArith ZArith Ascii String.")
-    w("Import ListNotations.")
-    w("Local Open Scope N_scope.")
-    w("")
-    # ---- ssnet.py
+def sec_ssnet(w):
     a = module_assigns(parse("sshuttle/ssnet.py"))
     for k in ("MAX_CHANNEL", "LATENCY_BUFFER_SIZE", "HDR_LEN", "SHUT_RD", "SHUT_WR", "SHUT_RDWR"):
         if k not in a:
@@ -91,6 +91,9 @@ def gen():
               "EISCONN", "EINVAL", "EMFILE", "ENFILE", "ECONNREFUSED", "ECONNRESET", "ENOTCONN",
               "EADDRINUSE", "EADDRNOTAVAIL", "ENOPROTOOPT", "ENOENT"):
         w("Definition %s : N := %d." % (n, getattr(errno, n)))
+
+
+def sec_client_sync(w):
     # ---- client.py: expected sync string
     ct = parse("sshuttle/client.py")
     fn = find_func(ct, "_main")
@@ -103,6 +106,9 @@ def gen():
     if exp is None:
         raise Shape("client._main: `expected = b'...'` not found")
     w("Definition client_sync : list ascii := %s." % coq_bytes(exp))
+
+
+def sec_server_sync(w):
     # ---- server.py: first stdout write in main
     stree = parse("sshuttle/server.py")
     fn = find_func(stree, "main")
@@ -116,6 +122,9 @@ def gen():
     if srv is None:
         raise Shape("server.main: sys.stdout.write('<sync>') not found")
     w("Definition server_sync : list ascii := %s." % coq_bytes(srv))
+
+
+def sec_method_choices(w):
     # ---- options.py: method choices
     ot = parse("sshuttle/options.py")
     choices = None
@@ -130,7 +139,10 @@ def gen():
     if choices is None:
         raise Shape("options.method_choices (else branch) not found")
     w("Definition method_choices : list string := %s." % coq_str_list(choices))
-    # ---- firewall.py: marker and readline limit
+
+
+def sec_hosts_marker(w):
+    # ---- firewall.py: marker
     ft = parse("sshuttle/firewall.py")
     fn = find_func(ft, "rewrite_etc_hosts")
     marker = None
@@ -144,6 +156,11 @@ def gen():
     pre, post = marker.split("%d")
     w("Definition hosts_marker_pre : list ascii := %s." % coq_bytes(pre.encode()))
     w("Definition hosts_marker_post : list ascii := %s." % coq_bytes(post.encode()))
+
+
+def sec_fw_readline(w):
+    # ---- firewall.py: readline limit
+    ft = parse("sshuttle/firewall.py")
     fn = find_func(ft, "main")
     lim = "absent"
     for st in ast.walk(fn):
@@ -153,17 +170,59 @@ def gen():
         raise Shape("firewall.main: stdin.readline(...) not found")
     # None = the helper reads whole lines (no per-line byte limit)
     w("Definition fw_readline_limit : option N := %s." % ("None" if lim is None else "Some %d" % lim))
-    w("")
-    return "\n".join(out)
 
 
-def main():
-    dst = sys.argv[1] if len(sys.argv) > 1 else os.path.join(os.path.dirname(__file__), "..", "coq", "Gen", "Consts.v")
+SECTIONS = [("ssnet", sec_ssnet), ("client_sync", sec_client_sync), ("server_sync", sec_server_sync),
+            ("method_choices", sec_method_choices), ("hosts_marker", sec_hosts_marker), ("fw_readline", sec_fw_readline)]
+
+
+def committed_sections():
+    """{section name: [lines]} of the committed constants ({} if the file is missing or unreadable)"""
+    out, cur = {}, None
     try:
-        text = gen()
-    except (Shape, SyntaxError, OSError) as e:
-        sys.stderr.write("gen_consts: cannot extract constants: %s\n" % e)
-        return 2
+        with open(COMMITTED) as f:
+            for line in f.read().split("\n"):
+                if line.startswith("(* section: ") and line.endswith(" *)"):
+                    cur = line[len("(* section: "):-len(" *)")]
+                    out[cur] = []
+                elif cur is not None and line.strip():
+                    out[cur].append(line)
+    except OSError:
+        return {}
+    return out
+
+
+def gen():
+    """returns (text of Consts.v or None, the same text with section markers (the form kept as committed copy),
+    [(section, reason)] that could not be extracted from the sources)"""
+    head = ["(* GENERATED by harness/gen_consts.py from %s — do not edit *)" % REPO,
+            "From Coq Require Import List NArith ZArith Ascii String.",
+            "Import ListNotations.",
+            "Local Open Scope N_scope.",
+            ""]
+    plain, marked = list(head), list(head)
+    failed, fallback = [], None
+    for name, fn in SECTIONS:
+        lines = []
+        try:
+            fn(lines.append)
+        except (Shape, SyntaxError, OSError) as e:
+            failed.append((name, str(e)))
+            if fallback is None:
+                fallback = committed_sections()
+            if name not in fallback:
+                return None, None, failed
+            lines = ["(* NOT extracted from %s (%s): taken from the committed constants *)" % (REPO, str(e).replace("*)", "* )"))]
+            lines += fallback[name]
+        plain.extend(lines)
+        marked.append(MARK % name)
+        marked.extend(lines)
+    plain.append("")
+    marked.append("")
+    return "\n".join(plain), "\n".join(marked), failed
+
+
+def write_if_changed(dst, text):
     old = None
     try:
         with open(dst) as f:
@@ -173,6 +232,25 @@ def main():
     if old != text:
         with open(dst, "w") as f:
             f.write(text)
+
+
+def main():
+    args = [a for a in sys.argv[1:] if a != "--snapshot"]
+    dst = args[0] if args else os.path.join(os.path.dirname(__file__), "..", "coq", "Gen", "Consts.v")
+    text, marked, failed = gen()
+    for name, why in failed:
+        sys.stderr.write("gen_consts: cannot extract constants: %s\n" % why)
+    if text is None:
+        sys.stderr.write("gen_consts: no committed constants to fall back on (%s)\n" % COMMITTED)
+        return 2
+    write_if_changed(dst, text)
+    if failed:
+        sys.stderr.write("gen_consts: section(s) %s taken from the committed constants %s so that the search for a failing "
+                         "input can run; the tie to the source is broken\n" % (", ".join(n for n, _ in failed), COMMITTED))
+        return 2
+    if "--snapshot" in sys.argv[1:] or os.path.realpath(REPO) == "/repo":
+        # the committed copy follows /repo's own constants (and only those: never a scratch tree's)
+        write_if_changed(COMMITTED, marked.replace("from %s " % REPO, "from /repo ", 1))
     return 0
 
 
